@@ -147,6 +147,19 @@ class C25(Property):
                 lines.append(f"cc {hx(wd) if wd is not None else '~'} {hx(' '.join(cmd))} {kv}".strip())
                 expect.append(hx(real))
                 meta.append(("create_command", sample))
+            if wd is not None and wd != "":
+                # the job script of QueueManagerConnector.run with the connector's own default template
+                from streamflow.deployment.connector import queue_manager as _qm
+                import ast as _ast, inspect as _inspect
+                if not hasattr(self, "_qm_default"):
+                    tree = _ast.parse(_inspect.getsource(_qm))
+                    self._qm_default = [k.value.value for n in _ast.walk(tree) if isinstance(n, _ast.Call) and _ast.unparse(n.func).endswith("CommandTemplateMap")
+                                        for k in n.keywords if k.arg == "default" and isinstance(k.value, _ast.Constant)][0]
+                cstr = sfu.create_command("QueueManagerConnector", cmd, environment=env, workdir=wd)
+                script = CommandTemplateMap(default=self._qm_default).get_command(command=cstr, environment=env, workdir=wd)
+                lines.append(f"qms {hx(wd)} {hx(' '.join(cmd))} {kv}".strip())
+                expect.append(hx(script))
+                meta.append(("queue-manager default job script", sample))
             tm = CommandTemplateMap(default="{{streamflow_environment}}|{{streamflow_workdir}}|{{streamflow_command}}")
             real = tm.get_command(command="C", environment=env, workdir="W")
             lines.append(f"gc {kv}".strip())
@@ -217,12 +230,12 @@ class C25(Property):
                 conn = LocalConnector("local", ctx.scratch)
                 loc = mini_location(MiniConnector())
                 return await conn.run(loc, command, environment=env, workdir=wd, capture_output=True, timeout=90)
-            if kind == "qm":
-                # what QueueManagerConnector.run submits: create_command, then the service template
+            if kind in ("qm", "qmd"):
+                # what QueueManagerConnector.run submits: create_command, then the service template (`qm`) or the built-in one (`qmd`)
                 cstr = sfu.create_command("QueueManagerConnector", command, environment=env, workdir=wd)
                 tm = CommandTemplateMap(default="#!/bin/sh\n\n{{streamflow_command}}",
                                         template_map={"svc": "#!/bin/sh\n{{streamflow_environment}}\n{{streamflow_command}}\n"})
-                script = tm.get_command(command=cstr, template="svc", environment=env, workdir=wd)
+                script = tm.get_command(command=cstr, template="svc" if kind == "qm" else None, environment=env, workdir=wd)
                 path = os.path.join(ctx.scratch, f"job{self.gen}_{self.nfile}.sh")
                 with open(path, "w") as f:
                     f.write(script)
@@ -312,12 +325,12 @@ class C25(Property):
         # boundary corpus first: one nasty thing at a time, on each path
         corpus = ["a b", "$HOME", "`id`", 'q"uote', "a'b", "back\\slash", "new\nline", "st*r", "semi;colon", "日本 😀"]
         for s in (corpus if ctx.tier == "thorough" or ctx.mode == "search" else corpus[:6]):
-            for kind in ("shell", "local", "qm"):
+            for kind in ("shell", "local", "qm", "qmd"):
                 plan.append((kind, dir_name(rng, False), {"K": s}))
             plan.append(("shell", s.replace("/", "_"), {"K": "v"}))
             plan.append(("local", s.replace("/", "_"), {"K": "v"}))
         for _ in range(n):
-            kind = rng.choice(["shell", "shell", "local", "qm"])
+            kind = rng.choice(["shell", "shell", "local", "qm", "qmd"])
             nasty_wd = rng.random() < 0.5
             env = {rng.choice(KEYS): (rand_string(rng) if rng.random() < 0.7 else tame_string(rng)) for _ in range(rng.choice([0, 1, 2, 3]))}
             plan.append((kind, dir_name(rng, nasty_wd), env))
